@@ -7,6 +7,7 @@ import (
 
 	tls "github.com/refraction-networking/utls"
 	"github.com/refraction-networking/utls/zz_verif/simnet"
+	"github.com/refraction-networking/utls/zz_verif/simrand"
 	"github.com/refraction-networking/utls/zz_verif/simrt"
 	"github.com/refraction-networking/utls/zz_verif/wire"
 )
@@ -44,8 +45,19 @@ func runC04(c *Ctx) {
 	peer := ch.Pick(2, "peer")
 	fp := stratum < 0 && kind == "id" && ch.Bool(30, "fingerprinted")
 	w := c.NewWorld(simrt.Config{})
+	// Config.Rand: ambient source, or a custom reader that legally returns short reads
+	chunk := []int{0, 0, 0, 1, 8, 16}[ch.Pick(6, "rand-chunk")]
+	var rs *simrand.Stream
+	if chunk > 0 {
+		rs = simrand.NewStream(ch.U64("cfg-rand"))
+		rs.MaxChunk = chunk
+	}
 	mk := func() *tls.Config {
-		return &tls.Config{ServerName: "example.test", InsecureSkipVerify: true, OmitEmptyPsk: true, PreferSkipResumptionOnNilExtension: true}
+		cfg := &tls.Config{ServerName: "example.test", InsecureSkipVerify: true, OmitEmptyPsk: true, PreferSkipResumptionOnNilExtension: true}
+		if rs != nil {
+			cfg.Rand = rs
+		}
+		return cfg
 	}
 	scfg := &tls.Config{Certificates: []tls.Certificate{Cert("ecdsa").U, Cert("rsa").U}}
 	stdcfg := &stdtls.Config{Certificates: []stdtls.Certificate{Cert("ecdsa").S, Cert("rsa").S}, MinVersion: stdtls.VersionTLS10}
@@ -150,6 +162,9 @@ func runC04(c *Ctx) {
 		}
 	}
 	c.R.NonTrivial = anyG
+	if rs != nil && rs.Short > 0 {
+		c.Fault("rand-shortread", 1)
+	}
 	vals, _ := GREASEValues(hellos[0])
 	c.R.Class += fmt.Sprintf(" %x", vals)
 
